@@ -20,7 +20,7 @@ def explain(text, err):
 
 def gather(chk, tier):
     inputs = []
-    for c in families.all_programs(chk, depth_values=1, depth_verdict=0 if tier == "quick" else 1, gen=200 if tier == "quick" else 4000, forms=True):
+    for c in families.all_programs(chk, depth_values=1, depth_verdict=0 if tier == "quick" else 1, gen=200 if tier == "quick" else 1500, forms=True):
         inputs.append({"src": c["src"], "origin": "%s/%s" % (c["family"], c["kind"])})
     for fam, k in (("soup", 3 if tier == "quick" else 4), ("shapes", 0)):
         r = vlib.tlc("PipelineInputs", "PipelineInputs.cfg", constants={"Family": '"%s"' % fam, "K": k}, xss="1g")
